@@ -7,7 +7,8 @@ from __future__ import annotations
 import ast
 
 from . import AnalysisError
-from .absint import (Interp, State, SeqV, IntV, BoolV, TupleV, ObjV, OpaqueV, NoneV, sym_bool, Out, NONE)
+from .absint import (Interp, State, SeqV, IntV, BoolV, TupleV, ObjV, OpaqueV, NoneV, sym_bool, Out, NONE,
+                     Unsupported)
 from .linarith import LinExpr, Cons, le, lt, ge, gt, eq, entails, infeasible_cached, find_model
 from .index import Scope, walk_local
 from .common import norm
@@ -23,7 +24,15 @@ class SegmentModel:
         self._find_anchors()
         self._run_validator()
         self._capacity_expr()
-        self._run_segmenter()
+        self.error = None
+        try:
+            self._run_segmenter()
+        except Unsupported as exc:
+            # structural rules can still be evaluated; the property module re-raises this if nothing else was found
+            self.error = exc
+            self.it.emit = type(self.it).emit.__get__(self.it)
+            self.seg_outs, self.yields, self.raises, self.exits, self.iter_ends, self.loop_exits = [], [], [], [], [], []
+            self.loop_reports = []
 
     # ------------------------------------------------------------------ anchors (by role, names as fallback)
     def _find_anchors(self):
@@ -44,14 +53,21 @@ class SegmentModel:
         self.writer_cls = writer_cls
         # record loop: the method of the writer class containing a call of a generator method on represent_as_bytes()
         self.record_loop = None
+        gen_methods = {}
+        for f in ix.functions.values():
+            if f.cls is not None and f.parent is None and f.is_generator() and f.cls.lookup("make_segment") is not None:
+                gen_methods[f.name] = f
+        if not gen_methods:
+            # fall back: any generator method of a class whose constructor takes the record bytes
+            for f in ix.functions.values():
+                if f.cls is not None and f.parent is None and f.is_generator() and "Bytes" in f.cls.name:
+                    gen_methods[f.name] = f
         for m in writer_cls.methods.values():
             for n in walk_local(m.node):
                 if isinstance(n, ast.For):
                     for c in ast.walk(n.iter):
                         if isinstance(c, ast.Call) and isinstance(c.func, ast.Attribute) \
-                                and isinstance(c.func.value, ast.Call) \
-                                and isinstance(c.func.value.func, ast.Attribute) \
-                                and c.func.value.func.attr == "represent_as_bytes":
+                                and c.func.attr in gen_methods and "represent_as_bytes" in norm(m.node):
                             self.record_loop = (m, n)
                             self.seg_call = c
         if self.record_loop is None:
@@ -120,52 +136,93 @@ class SegmentModel:
             expr = defs[0].value
         self.capacity_src = norm(expr)
         st0, fields = self.writer_fields[0]
-        st = st0.clone()
-        st.frames.append({"self": self.writer_obj})
-        it.cur_func.append(m)
-        try:
-            outs = it.eval(expr, st)
-        finally:
-            it.cur_func.pop()
-        vals = [o for o in outs if o.kind == "val" and isinstance(o.value, IntV)]
-        if len(vals) != 1:
-            raise AnalysisError(f"capacity expression `{self.capacity_src}` did not evaluate to one integer")
-        self.M = vals[0].value.e
-        self.base_cons = list(vals[0].st.cons)
+        self.base_cons = list(st0.cons)
+        self.M = None
 
-    # ------------------------------------------------------------------ the segmenter for all S, all accepted vrl
+    # ------------------------------------------------------------------ the whole record loop, for all S, all vrl
     def _run_segmenter(self):
+        """Interpret the writer's record loop itself (so that restructurings of the loop - fast paths, helper
+        functions - are analysed as they are): one symbolic record with body length S, the segmenter generator
+        inlined into the `for` that consumes it, the visible-record builder inlined, the output buffer replaced by a
+        summary that logs each visible record handed over (the buffer itself is C10's subject)."""
         it = self.it
+        ix = self.ix
+        st0, fields = self.writer_fields[0]
         st = State()
         for c in self.base_cons:
             st.add(c)
         st.add(ge(self.S, 0))
         self.is_eflr = sym_bool(st, "is_eflr")
-        obj = st.new_obj(self.lrb_cls, tag="record", fields={})
-        init = self.lrb_cls.lookup("__init__")
+        writer = st.new_obj(self.writer_cls, tag="writer", fields=dict(fields))
+        # the label has been written
+        for k, v in list(st.fields(writer).items()):
+            if isinstance(v, BoolV) and v.f == ("f",):
+                st.fields(writer)[k] = BoolV(("t",))
+        bw = [v for v in fields.values() if isinstance(v, ObjV)]
+        for b in bw:
+            if b.oid not in st.heap:
+                st.heap[b.oid] = {"fields": dict(st0.heap[b.oid]["fields"])}
+                st.next_oid = max(st.next_oid, b.oid + 1)
+        lr_cls = ix.get_class("LogicalRecord")
+        rab = lr_cls.lookup("represent_as_bytes")
         body = SeqV("bytes", self.S, [("param", self.S, "body")])
         lrtype = SeqV("bytes", 1, [("param", LinExpr.c(1), "lrtype")])
-        outs = it.call_function(init, [obj, body, lrtype, self.is_eflr], {}, st, init.node)
-        inits = [o for o in outs if o.kind == "val"]
-        if len(inits) != 1:
-            raise AnalysisError("LogicalRecordBytes constructor: expected exactly one path")
-        st = inits[0].st
-        self.record_obj = obj
-        self.record_fields_after_init = dict(st.fields(obj))
-        outs = it.call_function(self.segmenter, [obj, IntV(self.M)], {}, st, self.segmenter.node)
+        init = self.lrb_cls.lookup("__init__")
+        self.record_objs = []
+
+        def represent_summary(interp, args, kwargs, s, node):
+            obj = s.new_obj(self.lrb_cls, tag="record")
+            outs = interp.call_function(init, [obj, body, lrtype, self.is_eflr], {}, s, node)
+            res = []
+            for o in outs:
+                if o.kind == "val":
+                    self.record_objs.append(obj)
+                    self.record_fields_after_init = dict(o.st.fields(obj))
+                    res.append(Out("val", o.st, obj))
+                else:
+                    res.append(o)
+            return res
+        it.summaries[rab.qualname] = represent_summary
+        buf_cls = ix.get_class("BufferedOutput")
+        add = buf_cls.lookup("add_bytes")
+        drain = buf_cls.lookup("pass_bytes_to_writer")
+
+        def add_summary(interp, args, kwargs, s, node):
+            v = args[1] if len(args) > 1 else kwargs.get("bts")
+            size = args[2] if len(args) > 2 else kwargs.get("size")
+            s.events.append(("vr-out", interp.where(node), v, list(s.cons), size))
+            return interp.val(s, NONE)
+
+        def drain_summary(interp, args, kwargs, s, node):
+            s.events.append(("drain", interp.where(node)))
+            return interp.val(s, NONE)
+        it.summaries[add.qualname] = add_summary
+        it.summaries[drain.qualname] = drain_summary
+        # segments handed over by the generator are logged so that tiling (one VR per segment) can be checked
+        orig_emit = it.emit
+
+        def emit(v, s, node):
+            if it.cur_func and it.cur_func[-1] is self.segmenter:
+                s.events.append(("segment", it.where(node), v, list(s.cons)))
+            return orig_emit(v, s, node)
+        it.emit = emit
+        rec = st.new_obj(lr_cls, tag="logical-record")
+        X = LinExpr.sym("output_chunk_size")
+        st.add(ge(X, self.vrl))
+        f = self.record_loop[0]
+        outs = it.drive(f, [writer, TupleV([rec], is_list=True), IntV(X)], {}, st)
+        it.emit = orig_emit
         self.seg_outs = outs
-        self.loop_reports = [sp.report for sp in it.loop_specs.values()]
+        self.loop_reports = [sp.report for sp in it.loop_specs.values() if sp.report]
         self.yields = []
         seen = set()
         for o in outs:
+            exact = not any(t == ("loop", "inductive") for t in o.st.trace)
             for e in o.st.events:
-                if e[0] == "yield":
-                    key = (id(e[2]), id(e[3]))
-                    if key in seen:
-                        continue
-                    seen.add(key)
-                    exact = not any(t == ("loop", "inductive") for t in o.st.trace)
-                    self.yields.append({"where": e[1], "value": e[2], "cons": e[3], "exact": exact, "st": o.st})
+                if e[0] == "vr-out" and id(e[3]) not in seen:
+                    seen.add(id(e[3]))
+                    y = self._segment_from_vr(e, exact, o.st)
+                    self.yields.append(y)
         self.raises = [o for o in outs if o.kind == "raise"]
         self.exits = [o for o in outs if o.kind == "val"]
         self.iter_ends, self.loop_exits = [], []
@@ -178,6 +235,26 @@ class SegmentModel:
                 if e[0] == "loop-exit" and id(e[3]) not in seen:
                     seen.add(id(e[3]))
                     self.loop_exits.append(e)
+
+    def _segment_from_vr(self, e, exact, st):
+        """A visible record handed to the buffer -> (segment bytes, size the segment header declares)."""
+        _, where, vr, cons, size_arg = e
+        y = {"where": where, "cons": cons, "exact": exact, "st": st, "vr": vr, "size_arg": size_arg,
+             "value": None, "vr_header": None}
+        if isinstance(vr, SeqV) and len(vr.pieces) >= 4 and vr.pieces[0][0] == "pack:>H":
+            hdr = vr.pieces[:3]
+            seg_pieces = vr.pieces[3:]
+            seg_len = LinExpr.c(0)
+            for p in seg_pieces:
+                seg_len = seg_len + p[1]
+            seg = SeqV("bytes", seg_len, list(seg_pieces))
+            declared = None
+            if seg_pieces and seg_pieces[0][0] == "pack:>H" and isinstance(seg_pieces[0][2][0], LinExpr):
+                declared = seg_pieces[0][2][0]
+            y["vr_header"] = hdr
+            if declared is not None:
+                y["value"] = TupleV([seg, IntV(declared)])
+        return y
 
     # ------------------------------------------------------------------ helpers for obligations
     @staticmethod
